@@ -121,24 +121,35 @@ func H_C07(t, w, hcap int) {
 	}
 	vAssert("count-includes-dropped", hl.N == count)
 	var wantFlags HdrFlags
-	var seen [HdrOther + 1]bool
+	var tys [refMaxHdrs]int
 	for i := 0; i < count; i++ {
 		h := hs[i]
 		ty := refHdrType(buf[h.ns:h.ne])
+		tys[i] = ty
 		wantFlags |= 1 << uint(ty)
 		if i < hcap {
 			g := &hl.Hdrs[i]
 			vAssert("name-span", pfIs(g.Name, h.ns, h.ne))
 			vAssert("value-span", pfIs(g.Val, h.vs, h.ve))
 			vAssert("type", int(g.Type) == ty)
-			// first-of-type shortcut (type is concrete in the parser's object)
-			gt := g.Type
-			if gt > HdrNone && gt < HdrOther && !seen[gt] {
-				seen[gt] = true
-				f := hl.GetHdr(gt)
-				vAssert("first-of-type", f.Type == gt && f.Name == g.Name && f.Val == g.Val)
-			}
 		}
+	}
+	// first-of-type shortcut for every known type, including headers that
+	// did not fit the caller's array
+	for t := HdrNone + 1; t < HdrOther; t++ {
+		found := false
+		ns, ne, vs, ve := 0, 0, 0, 0
+		for i := count - 1; i >= 0; i-- {
+			is := tys[i] == int(t)
+			found = vOr(found, is)
+			ns, ne = vIte(is, hs[i].ns, ns), vIte(is, hs[i].ne, ne)
+			vs, ve = vIte(is, hs[i].vs, vs), vIte(is, hs[i].ve, ve)
+		}
+		f := hl.GetHdr(t)
+		vAssert("first-of-type-present", vOr(vAnd(found, f.Type == t), vAnd(!found, f.Type == HdrNone)))
+		okN := vAnd(int(f.Name.Offs) == ns, int(f.Name.Len) == ne-ns)
+		okV := vAnd(int(f.Val.Offs) == vs, int(f.Val.Len) == ve-vs)
+		vAssert("first-of-type-spans", vOr(!found, vAnd(okN, okV)))
 	}
 	vAssert("type-flags", hl.PFlags == wantFlags)
 	vReach("wellformed")
